@@ -21,6 +21,7 @@ CLAIMS = {
  'C12': ("sequential lock-table and wait-graph bookkeeping from an arbitrary table satisfying the representation invariant: conflicts refused with nothing acquired, grants all-or-nothing under a fresh handle, release/expiry leave nothing behind, invariant preserved, forward/reverse wait edges stay mirror images, detect_cycles reports a cycle exactly when the recorded edges of a graph on up to 3 transactions contain one, would_create_cycle is exact, victim is a member of the cycle; thread interleavings and larger graphs are not decided", "§4 C12"),
  'C13': ("TxWal: same crash obligations as C10; TxRecoveryState::from_entries never resurrects a completed transaction, returns prepared ones with their votes, forgets preparing ones and lists orphaned lock handles exactly; coordinator commit()/abort() with the real TxWal: a crash at any byte of the call recovers either the logged decision or the still-prepared transaction, never the opposite outcome", "§4 C13"),
  'C15': ("both real Pratt loops (ExprParser and Parser) executed on symbolic token streams: for every pair of infix operators a OP1 b OP2 c groups per the documented precedence levels and left associativity, prefix operators bind tighter than every infix operator, token->operator map is injective; lexer/totality/depth/text-vs-engine equivalence not decided", "§4 C15"),
+ 'C16': ("chain link/validation logic only, with hashes, Merkle roots and signature verdicts opaque per block: Chain::append accepts exactly blocks with height = tip+1, prev_hash = tip hash, matching transaction root and (above height 1) a signature that verifies when keys are registered, then advances height/tip and stores the block, and changes nothing when it refuses; Chain::verify_chain succeeds exactly when every block 1..height is present and passes all link checks; tamper-evidence then rests on the cryptographic assumptions (not checked); workspace commit atomicity, concurrent commits and replica determinism are not decided", "§4 C16"),
  'C17': ("newer-wins kernel is a strict order; the real merge gives the same view for every order/batching/repetition of the same updates; clock and incarnations never regress under any single operation", "§4 C17"),
 }
 NA = {
@@ -28,7 +29,6 @@ NA = {
  'C08': "whole-database equality across blob store, snapshot bytes, slabs and router (DESIGN §5)",
  'C11': "pure concurrency property of sharded maps; the technique has no scheduler (DESIGN §5)",
  'C14': "BFS over GraphEngine plus AES-GCM/HMAC/Argon2; not an SMT question (DESIGN §5)",
- 'C16': "SHA-256/Ed25519 over serialized blocks and store snapshots; atomic commit is store state plus concurrency (DESIGN §5)",
  'C19': "async BlobStore over TensorStore, SHA-256 chunk keys, concurrent GC (DESIGN §5)",
 }
 checks = []
